@@ -459,7 +459,7 @@ func runCase(c map[string]interface{}, tgt *scentarget.Target, root string, hcl 
 		return obs
 	}
 	agg := &recAggregator{}
-	obs.RunErr = runEngine(conf, agg, 60*time.Second)
+	obs.RunErr = runEngine(conf, agg, 120*time.Second)
 	obs.Log = tgt.Log()
 	obs.Samples = agg.Samples()
 	tgt.DropConns()
@@ -507,6 +507,14 @@ func scenarioMain(args []string) {
 	}
 	close(next)
 	wg.Wait()
+	// a case that hit the driver's own time limit (normal: milliseconds) is repeated once, alone
+	for j := range cases {
+		if strings.Contains(results[j].RunErr, "context deadline exceeded") {
+			tgt := scentarget.NewTarget()
+			results[j] = runCase(cases[j], tgt, root, results[j].Format == "hcl", *inst)
+			tgt.Close()
+		}
+	}
 	for j := range cases {
 		w.Emit(map[string]interface{}{"case": cases[j], "obs": results[j], "inst": *inst})
 	}
